@@ -661,70 +661,12 @@ class Inliner:
 
     # ------------------------------------------------------------------
     def _expand(self, s, fld, call, callee, recv, f, root):
-        node = callee.node  # callee's own helpers already expanded
-        a = node.args
-        params = [x.arg for x in a.posonlyargs + a.args]
-        kwonly = [x.arg for x in a.kwonlyargs]
-        defaults = dict(zip(params[len(params) - len(a.defaults) :], a.defaults))
-        for k, d in zip(kwonly, a.kw_defaults):
-            if d is not None:
-                defaults[k] = d
-        actual: dict[str, ast.AST] = {}
-        pos = list(call.args)
-        if recv is not None:
-            pos = [recv] + pos
-        if len(pos) > len(params):
-            raise _NoInline("too many positional arguments")
-        for p, v in zip(params, pos):
-            actual[p] = v
-        for k in call.keywords:
-            if k.arg in actual or k.arg not in params + kwonly:
-                raise _NoInline("keyword mismatch")
-            actual[k.arg] = k.value
-        for p in params + kwonly:
-            if p not in actual:
-                if p not in defaults:
-                    raise _NoInline(f"missing argument {p}")
-                actual[p] = defaults[p]
-
-        self.counter += 1
-        tag = f"__i{self.counter}"
-        body = copy.deepcopy(node.body)
-        if body and isinstance(body[0], ast.Expr) and isinstance(body[0].value, ast.Constant) and isinstance(body[0].value.value, str):
-            body = body[1:]
-        callee_stored = set()
-        for b in body:
-            callee_stored |= _stored_names(b)
-        caller_names = _all_names(root)
-        arg_names = set()
-        for v in actual.values():
-            arg_names |= {n.id for n in ast.walk(v) if isinstance(n, ast.Name)}
         targets = set()
         if isinstance(s, ast.Assign) and s.value is call:
             for t in s.targets:
                 targets |= {n.id for n in ast.walk(t) if isinstance(n, ast.Name)}
-        mapping, rename, pre = {}, {}, []
-        for p, v in actual.items():
-            if _simple_expr(v) and p not in callee_stored:
-                mapping[p] = v
-            else:
-                nm = p if (p not in caller_names or (isinstance(v, ast.Name) and v.id == p)) else f"{p}{tag}"
-                if not (isinstance(v, ast.Name) and v.id == nm):
-                    asg = ast.Assign([ast.Name(nm, ast.Store())], copy.deepcopy(v))
-                    pre.append(ast.copy_location(asg, call))
-                if nm != p:
-                    rename[p] = nm
-        for nm in callee_stored:
-            if nm in actual:
-                continue
-            if nm in caller_names and not (nm in targets and nm not in arg_names):
-                rename[nm] = f"{nm}{tag}"
-        sub = _Subst(mapping, rename)
-        body = [sub.visit(b) for b in body]
-        for b in body:
-            for n in ast.walk(b):
-                n._relpath = callee.module.relpath
-                n._inlined_from = callee.key
+        pre, body = self._bind(call, callee, recv, root, targets)  # callee's own helpers are already expanded
+        tag = f"__i{self.counter}"
 
         whole = getattr(s, fld) is call
         tmp = f"_ret{tag}"
